@@ -266,6 +266,21 @@ def finish(agg, spec, extra_cov=None):
     return 0
 
 
+def salvage(agg, job):
+    """Violation records streamed to disk by a shard that did not finish (watchdog, crash)."""
+    p = job["out"] + ".viol"
+    if os.path.exists(job["out"]) or not os.path.exists(p):
+        return 0
+    n = 0
+    for ln in open(p, errors="replace"):
+        try:
+            agg.violations.append(json.loads(ln))
+            n += 1
+        except Exception:
+            pass
+    return n
+
+
 def crash_violation(prop, cfg, job, st, rc, sub="process"):
     """A child that died (panic escaping recover, runtime fatal error, sanitizer report) is an observation."""
     about = job["out"] + ".about"
@@ -319,7 +334,8 @@ def engine_apimon(prop, tier, seed, spec):
         return finish(agg, spec)
     for j, st, rc in run_shards(jobs, spec.get("timeout", {}).get(tier, 1800)):
         if st == "timeout":
-            agg.inconclusive.append("%s shard watchdog fired (%s)" % (j["cfg"], os.path.basename(j["out"])))
+            k = salvage(agg, j)
+            agg.inconclusive.append("%s shard watchdog fired (%s)%s" % (j["cfg"], os.path.basename(j["out"]), "; %d violation records written before it were kept" % k if k else ""))
             continue
         if os.path.exists(j["out"]):
             agg.add_record(j["out"], j["cfg"])
@@ -327,6 +343,7 @@ def engine_apimon(prop, tier, seed, spec):
             if rc == 3:
                 agg.inconclusive.append("%s: harness reported inconclusive (rc=3): %s" % (j["cfg"], open(j["log"]).read()[-300:]))
             else:
+                salvage(agg, j)
                 agg.violations.append(crash_violation(prop, j["cfg"], j, st, rc))
     return finish(agg, spec)
 
@@ -658,7 +675,8 @@ def run_layers(agg, prop, tier, seed, spec, cfgs, nsh, wdir, prefix="L"):
                                   "-config", cfg, "-scale", str(scale), "-out", out]})
     for j, st, rc in run_shards(jobs, spec.get("timeout", {}).get(tier, 2400)):
         if st == "timeout":
-            agg.inconclusive.append("%s monitored-build shard watchdog fired (%s)" % (j["cfg"], os.path.basename(j["out"])))
+            k = salvage(agg, j)
+            agg.inconclusive.append("%s monitored-build shard watchdog fired (%s)%s" % (j["cfg"], os.path.basename(j["out"]), "; %d violation records written before it were kept" % k if k else ""))
             continue
         if os.path.exists(j["out"]):
             agg.add_record(j["out"], j["cfg"])
@@ -666,6 +684,7 @@ def run_layers(agg, prop, tier, seed, spec, cfgs, nsh, wdir, prefix="L"):
             if rc == 3:
                 agg.inconclusive.append("%s: harness reported inconclusive (rc=3): %s" % (j["cfg"], open(j["log"]).read()[-300:]))
             else:
+                salvage(agg, j)
                 agg.violations.append(crash_violation(prop, j["cfg"], j, st, rc, sub="monitored-build-process"))
 
 
@@ -726,6 +745,7 @@ def engine_api_plus_layers(prop, tier, seed, spec):
                                   "-config", cfg, "-scale", str(scale), "-out", out]})
     for j, st, rc in run_shards(jobs, spec.get("timeout", {}).get(tier, 1800)):
         if st == "timeout":
+            salvage(agg, j)
             agg.inconclusive.append("%s shard watchdog fired" % j["cfg"])
             continue
         if os.path.exists(j["out"]):
